@@ -1,6 +1,7 @@
 package type5
 
 import (
+	"bytes"
 	"crypto/sha256"
 	"fmt"
 
@@ -76,6 +77,15 @@ func (s BatchedPrivateTokenRequestState) FinalizeTokens(tokenResponseEnc []byte)
 	err := proof.UnmarshalBinary(group.Ristretto255, proofEnc)
 	if err != nil {
 		return nil, err
+	}
+	// The ristretto255 scalar decoder ignores the three most significant bits
+	// of each scalar, so accept the canonical encoding of the proof only.
+	canonicalProofEnc, err := proof.MarshalBinary()
+	if err != nil {
+		return nil, err
+	}
+	if !bytes.Equal(canonicalProofEnc, proofEnc) {
+		return nil, fmt.Errorf("invalid batch token response proof encoding")
 	}
 
 	evaluation := &oprf.Evaluation{
